@@ -1,12 +1,27 @@
 use std::sync::Arc;
+#[cfg(not(cached_verif))]
 use std::sync::atomic::{AtomicBool, Ordering};
+#[cfg(cached_verif)]
+use crate::verif_rt::sync::atomic::{AtomicBool, Ordering};
+#[cfg(not(cached_verif))]
 use std::thread;
+#[cfg(cached_verif)]
+use crate::verif_rt::sync::thread;
 use std::time::{Duration, SystemTime, UNIX_EPOCH};
 
+#[cfg(not(cached_verif))]
 use crossbeam_channel::tick;
+#[cfg(cached_verif)]
+use crate::verif_rt::sync::crossbeam_channel::tick;
+#[cfg(not(cached_verif))]
 use hashbrown::HashMap;
+#[cfg(cached_verif)]
+use crate::verif_rt::sync::hashbrown::HashMap;
 use log::{debug, info};
+#[cfg(not(cached_verif))]
 use parking_lot::RwLock;
+#[cfg(cached_verif)]
+use crate::verif_rt::sync::parking_lot::RwLock;
 
 use crate::cache::clock::ClockType;
 use crate::cache::expiration::config::TTLConfig;
